@@ -124,11 +124,26 @@ func (g *sgen) noise() {
 		g.emit(rec.Ev{K: rec.KPadding})
 	}
 	if g.o.Comments && g.t.Chance("comment", 1, 6) {
-		g.emit(rec.Ev{K: rec.KComment, B: g.t.Bool("com-multi"), S: []byte(g.text("com", 8, false))})
+		g.emit(rec.Ev{K: rec.KComment, B: g.t.Bool("com-multi"), S: []byte(commentSafe(g.text("com", 8, false)))})
 	}
 }
 
-var textPool = []string{"a", "b", "z", "Q", "0", "_", " ", "é", "ß", "日", "本", "€", "𝄞", "😀", "x", "-", ".", "k"}
+// characters of 1-4 bytes, and ones the text format must escape (quote,
+// backslash, controls, DEL, NEL, line separator)
+var textPool = []string{"a", "b", "z", "Q", "0", "_", " ", "é", "ß", "日", "本", "€", "𝄞", "😀", "x", "-", ".", "k",
+	"\"", "\\", "\t", "\n", "\x01", "\x7f", "\u0085", " ", "/", "*"}
+
+// commentSafe drops what would end or break a comment (line ends, controls, '*', '/').
+func commentSafe(s string) string {
+	out := make([]rune, 0, len(s))
+	for _, r := range s {
+		if r < 0x20 || r == 0x7f || r == 0x85 || r == 0x2028 || r == '*' || r == '/' || r == '\\' || r == '"' {
+			continue
+		}
+		out = append(out, r)
+	}
+	return string(out)
+}
 
 func (g *sgen) text(label string, maxRunes int, nonEmpty bool) string {
 	n := g.t.Small(label+"-len", maxRunes)
